@@ -71,7 +71,7 @@ type stats struct {
 	ambiguous, latestChecked, metaDeleted, readd, elementEnc, keyed                                  bool
 	sawConnErr                                                                                       map[string]bool
 	maxBulk, maxDeleted                                                                              int
-	nearValue, directEntry                                                                           bool
+	nearValue, directEntry, mixedEnc                                                                 bool
 	bigDeleteWithSurvivor                                                                            bool
 }
 
@@ -106,6 +106,7 @@ func (s *stats) labels() []string {
 	add(s.keyed, "keyed-path")
 	add(s.nearValue, "update-with-smallest-change-of-stored-value")
 	add(s.directEntry, "operation-through-the-per-target-entry-point")
+	add(s.mixedEnc, "prefix-and-paths-in-different-or-both-encodings")
 	add(s.maxBulk > 32, "bulk-update>32")
 	add(s.maxBulk > 64, "bulk-update>64")
 	add(s.maxDeleted > 32, "one-delete-removed>32")
@@ -501,6 +502,22 @@ func (w *world) resolve(name string, spec *Noti) (origin string, prefix []gn.Ele
 	return "", toElems(leaf[:split]), toElems(leaf[split:]), true
 }
 
+// pathOf builds an update/delete path in the encoding the spec asks for.
+func pathOf(spec *Noti, p []gn.Elem, spare int) *pb.Path {
+	element := spec.Element
+	switch spec.PathEnc {
+	case "elem", "both":
+		element = false
+	case "element":
+		element = true
+	}
+	out := gn.Path("", "", p, element, spare)
+	if spec.PathEnc == "both" && len(out.Elem) > 0 {
+		out.Element = []string{"stray", "x"}
+	}
+	return out
+}
+
 func (w *world) build(name string, spec *Noti) *pb.Notification {
 	origin, prefixElems, first, rel := w.resolve(name, spec)
 	var prefix *pb.Path
@@ -519,16 +536,22 @@ func (w *world) build(name string, spec *Noti) *pb.Notification {
 	} else {
 		prefix = gn.Path(name, origin, prefixElems, spec.Element, 0)
 	}
+	if spec.PrefixBoth && !spec.Share && len(prefix.Elem) > 0 {
+		prefix.Element = []string{"stray"}
+	}
+	if spec.PathEnc != "" || spec.PrefixBoth {
+		w.st.mixedEnc = true
+	}
 	n := &pb.Notification{Prefix: prefix, Atomic: spec.Atomic}
 	for i, u := range spec.Updates {
 		p := u.Path
 		if i == 0 && rel && !spec.Atomic {
 			p = first
 		}
-		up := gn.Path("", "", p, spec.Element, 2)
+		up := pathOf(spec, p, 2)
 		if spec.Share {
 			// callers also reuse path objects between notifications
-			uk := fmt.Sprintf("path|%v|%v", spec.Element, gn.IndexOfElems(p, false))
+			uk := fmt.Sprintf("path|%v|%v|%v", spec.Element, spec.PathEnc, gn.IndexOfElems(p, false))
 			for _, e := range p {
 				uk += fmt.Sprintf("|%v", e.Keys)
 			}
@@ -554,7 +577,7 @@ func (w *world) build(name string, spec *Noti) *pb.Notification {
 			if b.Leaf != "" {
 				p = append(p, gn.Elem{Name: b.Leaf})
 			}
-			n.Update = append(n.Update, &pb.Update{Path: gn.Path("", "", p, spec.Element, 0), Val: gn.Val{Kind: "int", I: b.V}.TV()})
+			n.Update = append(n.Update, &pb.Update{Path: pathOf(spec, p, 0), Val: gn.Val{Kind: "int", I: b.V}.TV()})
 		}
 		if b.N > w.st.maxBulk {
 			w.st.maxBulk = b.N
@@ -582,7 +605,7 @@ func (w *world) build(name string, spec *Noti) *pb.Notification {
 			// a delete whose joined path is empty is a hostile shape (C12)
 			p = []gn.Elem{{Name: "*"}}
 		}
-		n.Delete = append(n.Delete, gn.Path("", "", p, spec.Element, 0))
+		n.Delete = append(n.Delete, pathOf(spec, p, 0))
 	}
 	if spec.Element {
 		w.st.elementEnc = true
